@@ -10,9 +10,11 @@ from dataclasses import dataclass, field
 from pathlib import Path
 
 VERIF = Path(__file__).resolve().parent.parent
-OUT = VERIF / "out"
+# VERIF_SCRATCH redirects evidence and replays (mutation experiments must not touch the real ones)
+_SCRATCH = os.environ.get("VERIF_SCRATCH")
+OUT = Path(_SCRATCH) if _SCRATCH else VERIF / "out"
 REPLAYS = OUT / "replays"
-EVIDENCE = VERIF / "evidence"
+EVIDENCE = (Path(_SCRATCH) / "evidence") if _SCRATCH else VERIF / "evidence"
 KNOWN = VERIF / "known_findings.json"
 
 
